@@ -235,8 +235,14 @@ def run_step(name, c, other, cs, z_new, z_old, k, t, num, out, klass0, idx):
         c != other
         c == 5
     elif name == "split":
-        for pc in c.split([z_new] if k % 2 else None):
+        for pc in c.split([z_new] if k % 2 else ([] if k % 4 == 0 else None)):
             structural_result(pc, out, klass0, name, idx)
+            if pc is c:
+                out.fail("result-aliases-operand", f"{klass0};{name}", f"step {idx}: split returned the operand itself")
+            # the returned pieces are the caller's: changing them must not change the operand
+            if pc.degree < 4:
+                pc.degree_increase(1)
+            pc.ctrlpoints = [pt + pt for pt in pc.ctrlpoints]
     elif name == "fraction":
         num_, den_ = c.fraction()
         structural_result(num_, out, klass0, name, idx)
